@@ -213,7 +213,7 @@ void run_datagram_(Ctx &c, vh::Rng &r, const c15gen::Dg &dg, const std::string &
     size_t pa = r.below(5), pb = (pa + 1 + r.below(4)) % 5;
     if (memcheck) pa = r.below(3);   // small garbage counts: under valgrind a 65535-round loop of the unfixed reader costs seconds
     std::string outcome[2];
-    bool risky = false;
+    bool risky = false, foreign = false;
     for (int run = 0; run < 2; ++run) {
         int uid = c.request(domain);
         uint16_t id = c.lk[uid].id;
@@ -259,6 +259,7 @@ void run_datagram_(Ctx &c, vh::Rng &r, const c15gen::Dg &dg, const std::string &
         unsigned before = memcheck ? VALGRIND_COUNT_ERRORS : 0;
         prefill_stack(pat[0], pat[1]);
         std::string out = c.deliver(b, srv, dg.tag.c_str());
+        if (c.last_named_uid >= 0 && c.last_named_uid != uid) foreign = true;   // the datagram named one of the background lookups
         if (memcheck) {
             unsigned after = VALGRIND_COUNT_ERRORS;
             vh::counter("memcheck_datagrams");
@@ -277,6 +278,8 @@ void run_datagram_(Ctx &c, vh::Rng &r, const c15gen::Dg &dg, const std::string &
         c.cancel_id(id, "cleanup");
         if (memcheck) return;
     }
+    // a datagram that completed (or counted against) a background lookup changed the state the other run saw
+    if (foreign) { vh::counter("differential_skipped_named_a_background_lookup"); return; }
     // a pointer that lands on the id field makes the parse depend on the lookup's id, which differs between the runs
     for (size_t o = 0; o + 1 < dg.b.size(); ++o)
         if ((dg.b[o] & 0xc0) == 0xc0 && ((size_t(dg.b[o] & 0x3f) << 8) | dg.b[o + 1]) < 2) { vh::counter("differential_skipped_pointer_to_id"); return; }
@@ -581,6 +584,23 @@ void wrap_case(uint64_t, vh::Rng &r) {
     vh::note_case(sig.h, wrapped);
 }
 
+//! witness: `c15_dns --mode witness --hex <datagram> [--servers N] [--keepid 1]` injects one datagram for one outstanding lookup
+//! (bytes 0-1 of the datagram are overwritten with the lookup's id unless --keepid 1), twice with different stale stacks, through the same oracle and prints what happened
+void witness_case(uint64_t, vh::Rng &r) {
+    Ctx c;
+    c.rng = &r;
+    c.open(int(vh::st().args.num("servers", 1)));
+    std::string hx = vh::st().args.str("hex");
+    Bytes b;
+    for (size_t i = 0; i + 1 < hx.size(); i += 2) b.push_back(uint8_t(strtoul(hx.substr(i, 2).c_str(), nullptr, 16)));
+    c15gen::Dg dg{b, "witness", vh::st().args.num("keepid", 0) != 0};
+    ParseStats ps;
+    run_datagram(c, r, dg, "witness.example", false, ps);
+    fprintf(stderr, "[c15 witness] %s\n", c.desc().c_str());
+    c.close();
+    vh::note_case(1, true);
+}
+
 bool private_netns() {
     if (unshare(CLONE_NEWNET) != 0) return false;
     int s = socket(AF_INET, SOCK_DGRAM, 0);
@@ -633,6 +653,7 @@ int main(int argc, char **argv) {
         else if (mode == "history") history_case(idx, r, false);
         else if (mode == "udp") history_case(idx, r, true);
         else if (mode == "wrap") wrap_case(idx, r);
+        else if (mode == "witness") witness_case(idx, r);
         else { fprintf(stderr, "VH-FATAL: unknown-mode\n"); abort(); }
     });
     if (!g_vg_log.empty()) unlink(g_vg_log.c_str());
